@@ -12,6 +12,7 @@ from .common import SPEC, HARNESS
 
 TRACE_TLA = os.path.join(SPEC, "trace", "Trace_Effects.tla")
 TRACE_CFG = os.path.join(SPEC, "trace", "Trace_Effects.cfg")
+PROTOCOL_ONLY_OK = True     # everything but the library-only process uses the real binary alone
 LS_BIN = os.path.join(HARNESS, "target", "release", "harper-ls-real")
 SYSCALLS = ("network,open,openat,openat2,creat,rename,renameat,renameat2,unlink,unlinkat,mkdir,mkdirat,"
             "truncate,ftruncate,link,linkat,symlink,symlinkat")
@@ -314,9 +315,12 @@ def run(v):
         e, raw = run_server("stdio", wd, v, pre=(k % 2 == 1), rnd=(k, v.seed * 1000 + k, sentences))
         evs += e
         raws[f"random{k}"] = raw
-    e, raw = run_lib(wd, corp)
-    evs += e
-    raws["lib"] = raw
+    if common.HARNESS_OK:
+        e, raw = run_lib(wd, corp)
+        evs += e
+        raws["lib"] = raw
+    else:
+        v.assumptions.append("the harness crate did not build against this tree; the library-only process was not traced: " + common.HARNESS_BUILD_ERROR[-200:])
     evs += [{"ev": "Proc", "mode": "lib"}] + deps_events()
     trace = os.path.join(wd, "trace.ndjson")
     with open(trace, "w") as f:
